@@ -390,8 +390,34 @@ pub fn substitution_family(doc: &Yaml) -> Vec<String> {
                 out.push("---\n".to_string());
             }
         }
+        // every list also at the lengths where a one-octet count or length field runs out
+        // (option lengths in units of 8 or 16 octets, counts of 255, ...): its first element
+        // repeated
+        if !p.key {
+            if let Some(Yaml::Array(a)) = node_at(doc, &p.idx) {
+                if let Some(first) = a.first() {
+                    for n in [31usize, 32, 63, 64, 127, 128, 129, 255, 256, 257, 1000] {
+                        let long = Some(Yaml::Array(vec![first.clone(); n]));
+                        if let Some(d) = substitute(doc, &p.idx, false, &long) {
+                            out.push(emit(&d));
+                        }
+                    }
+                }
+            }
+        }
     }
     out
+}
+
+pub fn node_at<'a>(y: &'a Yaml, path: &[usize]) -> Option<&'a Yaml> {
+    if path.is_empty() {
+        return Some(y);
+    }
+    match y {
+        Yaml::Array(a) => node_at(a.get(path[0])?, &path[1..]),
+        Yaml::Hash(h) => node_at(h.iter().nth(path[0])?.1, &path[1..]),
+        _ => None,
+    }
 }
 
 // ---------------------------------------------------------------------------------------------
